@@ -6,6 +6,15 @@ props = [json.loads(l) for l in open(os.path.join(ROOT, 'properties.jsonl'))]
 NOTE_COMMON = ("Trusted: clang 14 front end; engine R (own symbolic executor over clang's AST of the current tree); exact reals for "
                "double/float; listed library models; z3 5.1/4.8.12, cvc5 1.0.3. Everything else is listed per run in the evidence file.")
 CLAIMS = {
+ 'C03': dict(
+   text=("Contracts on the real time_integration_scheme::update_nodes_positions in four compile-time configurations (contact model 0/1 x dynamic "
+         "model 0/1, one clang run each through the guarded override hook): time advances by exactly dt per call (loops by contract with a frame "
+         "obligation); an arbitrary iteration of the per-cell loop: skipped only if the cell is static and then nothing is written, otherwise "
+         "the per-node mass is density*volume/#live nodes; an arbitrary iteration of the node loop: the documented law for uncoupled live "
+         "nodes, force reset, dead slots and every other node untouched; coupled pairs (model 1): same displacement, law on the averaged state, "
+         "total momentum follows total force, forces reset. All cells, nodes, forces, momenta, dt, damping, masses symbolic."),
+   design='6 C03', technique='contract-based deductive verification: loop-body contracts (arbitrary iteration from an arbitrary state) on the clang AST + SMT (non-linear real arithmetic)',
+   note=NOTE_COMMON + " Mutual, valid couplings are the property's hypothesis (preconditions); contact model 2 is not under contract; 'each node once per call' is for-loop semantics."),
  'C04': dict(
    text=("Contracts on the real functions of the cell cycle, all inputs symbolic: target-volume law with floor, pressure law with cap, division trigger "
          "(epithelial vs base class), removal predicate and its side effect, 3-sigma clamp of the sampled growth rate / division volume, order of "
